@@ -33,6 +33,80 @@ def stages(tier):
     ]
 
 
+
+# parallel regions no execution of this build can reach (read from the sources; evidence annotation only)
+_UNREACHABLE = [
+    ("src/DirectSolver/DirectSolverGive/", "MUMPS build only"),
+    ("src/DirectSolver/DirectSolverTake/", "MUMPS build only"),
+    ("include/LinearAlgebra/coo_matrix.h", "COO matrices are only built for MUMPS"),
+    ("task_parallelization.cpp", "private alternative sweep, never called"),
+    ("culhamGeometry.inl", "CulhamGeometry::my_sum is never called"),
+]
+
+
+def _unreachable(rel):
+    for pat, why in _UNREACHABLE:
+        if pat in rel:
+            return " [%s]" % why
+    return ""
+
+
+def _source_site_coverage(regions, stage):
+    """Maps the code addresses of the traced parallel regions back to `#pragma omp parallel` sites of the repository's
+    sources (a region with an `if` clause has two addresses: the forking and the serialised path)."""
+    import re
+    import subprocess
+    sites = {}
+    for sub in ("src", "include"):
+        for root, _, files in os.walk(os.path.join(core.REPO, sub)):
+            for f in files:
+                if not f.endswith((".cpp", ".h", ".inl")):
+                    continue
+                path = os.path.join(root, f)
+                for n, line in enumerate(open(path, errors="replace"), 1):
+                    if re.search(r"#\s*pragma\s+omp\s+parallel", line):
+                        sites[(os.path.relpath(path, core.REPO), n)] = 0
+    binary = os.path.join(core.build_dir("omp"), "p11_race")
+    keys = sorted(a for a in regions if a.startswith("p11_race+"))
+    # a region is identified by its return address; one byte earlier lies inside the call and resolves to the pragma line
+    offs = [hex(int(a.split("+", 1)[1], 16) - 1) for a in keys]
+    out = subprocess.run(["llvm-symbolizer-14", "-e", binary, "--functions=none", "--inlines"] + offs, stdout=subprocess.PIPE, text=True, timeout=120).stdout
+    blocks = [b.strip().split("\n") for b in out.strip().split("\n\n")]
+    outside = set()
+    repo_real = os.path.realpath(core.REPO)
+    for a, frames in zip(keys, blocks):
+        for loc in frames:  # innermost inlined frame first
+            m = re.match(r"(.*):(\d+):\d+$", loc.strip())
+            if not m:
+                continue
+            r = os.path.relpath(os.path.realpath(m.group(1)), repo_real)
+            if r.startswith(".."):
+                continue
+            line = int(m.group(2))
+            if line == 0:  # no line for the call itself: fall back to the statement after the region
+                fb = subprocess.run(["llvm-symbolizer-14", "-e", binary, "--functions=none", "--no-inlines", "0x" + a.split("+0x", 1)[1]],
+                                    stdout=subprocess.PIPE, text=True, timeout=60).stdout.strip().split("\n")[0]
+                m2 = re.match(r"(.*):(\d+):\d+$", fb)
+                after = int(m2.group(2)) if m2 else 0
+                prev = [k for k in sites if k[0] == r and k[1] < after]
+                if prev:
+                    k = max(prev, key=lambda k: k[1])
+                    sites[k] = max(sites[k], max(regions[a]))
+                    break
+            cand = [k for k in sites if k[0] == r and abs(k[1] - line) <= 1]
+            if cand:
+                k = min(cand, key=lambda k: abs(k[1] - line))
+                sites[k] = max(sites[k], max(regions[a]))
+            else:
+                outside.add("%s:%d" % (r, line))
+            break
+    return {
+        "parallel_pragma_sites_in_source": len(sites),
+        "parallel_pragma_sites_run_with_team_size_ge_2": sum(1 for v in sites.values() if v >= 2),
+        "parallel_pragma_sites_not_run_with_team_size_ge_2": sorted("%s:%d%s%s" % (k[0], k[1], " (serial only)" if v == 1 else "", _unreachable(k[0])) for k, v in sites.items() if v < 2),
+        "traced_regions_not_matched_to_a_pragma_site": sorted(outside),
+    }
+
 THRESHOLDS = {}
 REQUIRED_CHECKS = []
 MIN_NONTRIVIAL = {"quick": 200, "thorough": 800}
@@ -157,10 +231,14 @@ def run(tier, seed, replay):
                     r = regions.setdefault(o["region"], set())
                     r.add(o["max_team"])
                     r.add(o["min_team"])
-            os.remove(TRACE)
+            os.replace(TRACE, TRACE + ".last")
         verdict.extra["parallel_regions_seen"] = len(regions)
         verdict.extra["parallel_regions_run_with_team_size_ge_2"] = sum(1 for r in regions.values() if max(r) >= 2)
         verdict.extra["team_sizes_seen"] = sorted({t for r in regions.values() for t in r})
+        try:
+            verdict.extra.update(_source_site_coverage(regions, by["ompt-trace"]))
+        except Exception as e:  # evidence only: never decides the verdict
+            verdict.extra["parallel_pragma_site_coverage"] = "not computed: %s" % e
     verdict.rule = RULE
     verdict.assumptions = ASSUMPTIONS
     verdict.samples = core.sanitize_json(verdict.samples)
